@@ -20,10 +20,16 @@ Oracle    : after *every* step every bare name of the pool (plus names with a se
             `/bin/sh -c 'command -v name'` (dash) under the same PATH and cwd; a disagreement between the
             two references is a HarnessError.  Results are compared by realpath.  A name with a separator
             must resolve to exactly that path or to nothing.
-Findings  : the CommandsCache views are additionally compared with a replica of the directory-mtime
-            keyed cache algorithm ("shadow"); an answer that is wrong but exactly what the shadow predicts
-            is attributed to C08-F1 / C08-F2 (tolerated and counted only while the finding is open in
-            known_findings.json, otherwise reported).  Anything else is a violation.
+Config    : per history $ENABLE_COMMANDS_CACHE on/off and $COMMANDS_CACHE_SAVE_INTERMEDIATE (cache file) on/off are
+            drawn; `restart` steps start a new session in the same place (the cache file, if any, survives).
+            Which cache view is asked first after a step rotates, so each must refresh by itself.
+Findings  : the CommandsCache views are additionally compared with a replica of the directory-mtime keyed
+            cache algorithm of the unchanged tree ("shadow"); an answer that is wrong but exactly what the
+            shadow predicts is attributed to C08-F1 (stale directory listing) / C08-F2 (merged map not
+            rebuilt).  C08-F3 (`'./x' in commands_cache` answers for the basename), C08-F4 ($PATH = [] runs a
+            file of the cwd) and C08-F5 ($PATH entry 'missing/../d0' is searched) have equally narrow
+            predicates.  A finding is tolerated (and counted in excluded_known) only while it is listed as
+            open in known_findings.json; otherwise it is reported.  Anything else is a violation.
 """
 
 from __future__ import annotations
@@ -32,7 +38,6 @@ import os
 import shutil
 import stat
 import subprocess
-import sys
 import tempfile
 
 from vlib import common
@@ -44,7 +49,7 @@ RULE = ("state-machine histories (create/delete/chmod/replace-by-dir/symlink/dir
         "$PATH edits through all EnvPath entry points, chdir, real runs) over 2-5 PATH directories and a 3-name "
         "pool, every name looked up through every view after every step; non-trivial = lookup of a name "
         "directly after a mutating step (file system, $PATH or cwd changed since the previous lookup of that "
-        "name); distinct = hash of (tree layout, $PATH list, cwd, cache setting, name)")
+        "name); distinct = hash of (tree layout, $PATH list, cwd, cache setting, name); samples are whole histories")
 HOOKS = False
 
 NAMES = ["vqa", "vqb", "vqc"]
@@ -239,8 +244,9 @@ def test_build_frame(SubprocSpec, line):
 
 
 class World:
-    def __init__(self, base, tolerate=(), stats=None, ignore=()):
+    def __init__(self, base, tolerate=(), stats=None, ignore=(), seen=None):
         self.base = base
+        self.seen = seen
         self.tolerate = set(tolerate)
         self.stats = stats
         self.ignore = ignore if isinstance(ignore, set) else set(ignore)
@@ -257,6 +263,8 @@ class World:
         self.shadow = None
         self.cache_on = True
         self.closed = False
+        self.save = False
+        self.last = None
         self._rpc = {}
 
     # -- helpers -----------------------------------------------------------------------
@@ -273,6 +281,14 @@ class World:
         if self.closed:
             return
         self.closed = True
+        st = self.stats
+        if st is not None and len(self.ops) > 3:
+            lab = "history:%s" % ("cache-disabled" if not self.cache_on else
+                                  "cache-file" if getattr(self, "save", False) else "default")
+            lst = st.samples.setdefault(lab, [])
+            smp = common.jsonable({"ops": self.ops, "after_last_step": self.last})
+            if len(lst) < 2 and smp not in lst:
+                lst.append(smp)
         try:
             os.chdir(self.home)
         except OSError:
@@ -296,6 +312,14 @@ class World:
                 pass
         else:
             shutil.rmtree(path)
+
+    def _mkdir(self, path):
+        """mkdir + a distinct old mtime: fresh directories made in the same kernel tick would otherwise share
+        one coarse timestamp by accident (equal mtimes are produced on purpose by mt=keep instead)"""
+        os.mkdir(path)
+        self.serial += 1
+        t = 1_500_000_000 + self.serial
+        os.utime(path, (t, t))
 
     def _write(self, path, kind, mode):
         self.serial += 1
@@ -331,7 +355,7 @@ class World:
             p = self.dpath(op["d"])
             if os.path.lexists(p):
                 return "noop"
-            os.mkdir(p)
+            self._mkdir(p)
             return "mkdir"
         if k == "linkdir":
             p = self.dpath(op["d"])
@@ -359,6 +383,15 @@ class World:
             return "chdir"
         if k in ("lookup", "run"):
             return k
+        if k == "restart":
+            # a new shell session started in the same place: with $COMMANDS_CACHE_SAVE_INTERMEDIATE the per-directory
+            # listings survive in the cache file, the merged map never does
+            self._session([str(x) for x in self.XSH.env["PATH"]])
+            self.shadow.merged = None
+            self.shadow.merged_paths = None
+            if not self.save:
+                self.shadow.per_dir = {}
+            return "restart"
         raise HarnessError("unknown op %r" % (op,))
 
     def _init(self, op):
@@ -366,15 +399,15 @@ class World:
 
         helpers.ensure()
         for i in range(op["ndirs"]):
-            os.mkdir(self.dpath(i))
-        os.mkdir(self.dpath(NCMD))
-        os.mkdir(os.path.join(self.R, "stage"))
+            self._mkdir(self.dpath(i))
+        self._mkdir(self.dpath(NCMD))
+        self._mkdir(os.path.join(self.R, "stage"))
         os.symlink("d0", os.path.join(self.R, "ld0"))
         os.chdir(self.R)
         entries = [self.sub(e) for e in op["path"]]
         self.cache_on = bool(op.get("cache", True))
-        self.XSH = session.load_session(self.base, path=entries, ENABLE_COMMANDS_CACHE=self.cache_on,
-                                        PWD=self.R)
+        self.save = bool(op.get("save", False))
+        self._session(entries)
         self.shadow = Shadow(self.cache_on)
         for d, n, kind, mode in op.get("files", []):
             if not os.path.isdir(self.dpath(d)):
@@ -384,6 +417,14 @@ class World:
                 self._remove(path)
             self._write(path, kind, mode)
         return "init"
+
+    def _session(self, entries):
+        """a new xonsh session (fresh Env, aliases, CommandsCache) with the given $PATH in the current cwd"""
+        from vlib import session
+
+        self.XSH = session.load_session(self.base, path=entries, ENABLE_COMMANDS_CACHE=self.cache_on,
+                                        COMMANDS_CACHE_SAVE_INTERMEDIATE=self.save,
+                                        XONSH_CACHE_DIR=os.path.join(self.R, "xc"), PWD=os.getcwd())
 
     def _existing(self, regular_only):
         out = []
@@ -449,7 +490,7 @@ class World:
         elif k == "mkentry":
             if os.path.lexists(path):
                 self._remove(path)
-            os.mkdir(path)
+            self._mkdir(path)
         elif k == "symlink":
             if os.path.lexists(path):
                 self._remove(path)
@@ -532,8 +573,11 @@ class World:
             if self.stats is not None:
                 self.stats.hist["already-reported:" + bucket] += 1
             return
-        raise Mismatch(Failure(kind, {"ops": list(self.ops)}, "[view %s] %s" % (view, detail),
-                               finding=finding, bucket=bucket))
+        f = Failure(kind, {"ops": [dict(o) for o in self.ops]}, "[view %s] %s" % (view, detail),
+                    finding=finding, bucket=bucket)
+        if self.seen is not None and len(self.seen) < 200:
+            self.seen.append(f)
+        raise Mismatch(f)
 
     def _ident(self, path):
         """What a run of `path` prints."""
@@ -571,7 +615,7 @@ class World:
         rp = self._rp
         entries = [str(x) for x in XSH.env["PATH"]]
         cwd = os.getcwd()
-        mutated = what not in ("noop", "lookup", "run")
+        mutated = what not in ("noop", "lookup", "run", "restart")
         empty_path = (len(entries) == 0)
         where = "PATH %r, cwd %r" % (_shortl(entries, R), _shortp(cwd, R))
 
@@ -629,6 +673,18 @@ class World:
                           count=not counted[0])
             counted[0] = True
 
+        # every cache view must refresh by itself: rotate which of them is asked first after the step
+        first = {}
+        turn = len(self.ops) % 3
+        n0 = NAMES[(len(self.ops) // 3) % len(NAMES)]
+        try:
+            if turn == 1:
+                first["lb", n0] = cc.locate_binary(n0)
+            elif turn == 2:
+                first["in", n0] = n0 in cc
+        except Exception as e:  # noqa: BLE001
+            self.mismatch("exception", "commands_cache", "%s: %s (%s)" % (type(e).__name__, e, where),
+                          bucket="exception:commands_cache:" + type(e).__name__)
         try:
             allc = {k: v[0] for k, v in cc.all_commands.items() if not v[1]}
         except Exception as e:  # noqa: BLE001
@@ -688,8 +744,8 @@ class World:
                               bucket="exception:spec:" + type(e).__name__)
             # V3 locate_binary, V4 `in`
             try:
-                lb = cc.locate_binary(name)
-                inn = name in cc
+                lb = first["lb", name] if ("lb", name) in first else cc.locate_binary(name)
+                inn = first["in", name] if ("in", name) in first else (name in cc)
             except Exception as e:  # noqa: BLE001
                 self.mismatch("exception", "commands_cache" + tag, "%s: %s; %s" % (type(e).__name__, e, ctx),
                               bucket="exception:commands_cache:" + type(e).__name__)
@@ -763,6 +819,8 @@ class World:
 
         # ---- statistics
         if st is not None:
+            self.last = {"PATH": _shortl(entries, R), "cwd": _shortp(cwd, R),
+                         "selected_by_path_search": {n: _shortp(truth[n], R) for n in NAMES}}
             lay = self._layout()
             cwd_rel = _shortp(cwd, R)
             flags = self._flags(entries, eff, truth)
@@ -774,6 +832,8 @@ class World:
                 st.hist["step-mutating"] += 1
             if not self.cache_on:
                 st.hist["step-with-cache-disabled"] += 1
+            if self.save:
+                st.hist["step-with-cache-file"] += 1
 
     def _run(self, name):
         from vlib import session
@@ -798,7 +858,7 @@ class World:
         out = []
         for dn in sorted(os.listdir(self.R)):
             p = os.path.join(self.R, dn)
-            if dn == "stage":
+            if dn in ("stage", "xc"):
                 continue
             if os.path.islink(p):
                 out.append((dn, "->" + os.readlink(p)))
@@ -873,8 +933,8 @@ def _short(d, R):
 # replay of one recorded history (no Hypothesis)
 
 
-def check_case(case, base, tolerate=()):
-    w = World(base, tolerate=tolerate)
+def check_case(case, base, tolerate=(), ignore=()):
+    w = World(base, tolerate=tolerate, ignore=ignore)
     try:
         for op in case["ops"]:
             try:
@@ -892,7 +952,7 @@ def check_case(case, base, tolerate=()):
 # the state machine
 
 
-def make_machine(stats, base, tolerate, ignore):
+def make_machine(stats, base, tolerate, ignore, seen=None):
     from hypothesis import strategies as st
     from hypothesis.stateful import RuleBasedStateMachine, initialize, rule
 
@@ -908,7 +968,7 @@ def make_machine(stats, base, tolerate, ignore):
     class PathLookupMachine(RuleBasedStateMachine):
         def __init__(self):
             super().__init__()
-            self.w = World(base, tolerate=tolerate, stats=stats, ignore=ignore)
+            self.w = World(base, tolerate=tolerate, stats=stats, ignore=ignore, seen=seen)
 
         def teardown(self):
             self.w.close()
@@ -919,10 +979,11 @@ def make_machine(stats, base, tolerate, ignore):
             self.w.step(op)
 
         @initialize(ndirs=st.integers(2, NCMD), path=st.lists(entry, min_size=1, max_size=5),
-                    cache=st.sampled_from([True, True, True, True, False]),
+                    cache=st.sampled_from([True, True, True, True, False]), save=st.sampled_from([False, False, True]),
                     files=st.lists(st.tuples(dirs_any, names, st.sampled_from(KINDS), modes), min_size=2, max_size=10))
-        def init(self, ndirs, path, cache, files):
-            self._go({"op": "init", "ndirs": ndirs, "path": path, "cache": cache, "files": [list(f) for f in files]})
+        def init(self, ndirs, path, cache, save, files):
+            self._go({"op": "init", "ndirs": ndirs, "path": path, "cache": cache, "save": save,
+                      "files": [list(f) for f in files]})
 
         @rule(d=dirs_any, n=names, kind=st.sampled_from(KINDS + ["dir"]), mode=modes, rename=st.booleans(), mt=mts,
               probe=probe)
@@ -1011,9 +1072,9 @@ def make_machine(stats, base, tolerate, ignore):
                 op["alt"] = list(ns[1:])      # run the first of these names that is a command, if ns[0] is not
             self._go(op, probe)
 
-        @rule(p=st.tuples(st.sampled_from(EXPLICIT), names))
-        def lookup(self, p):
-            self._go({"op": "lookup"}, p)
+        @rule(p=st.tuples(st.sampled_from(EXPLICIT), names), restart=st.sampled_from([False, False, True]))
+        def lookup(self, p, restart):
+            self._go({"op": "restart" if restart else "lookup"}, p)
 
     return PathLookupMachine
 
@@ -1027,13 +1088,33 @@ def worker_machine(arg):
     batches = 3
     try:
         for b in range(batches):
-            cls = make_machine(st, base, set(tolerate), ignore)
-            exc = common.run_machine(cls, seed * 31 + b, max(1, nex // batches), steps, shrink=True, shrink_seconds=25)
+            seen = []
+            cls = make_machine(st, base, set(tolerate), ignore, seen)
+            exc = common.run_machine(cls, seed * 31 + b, max(1, nex // batches), steps, shrink=True, shrink_seconds=12)
             if exc is None:
                 continue
             if isinstance(exc, HarnessError):
                 raise exc
-            f = common.machine_failure(exc, "C08 machine")
+            if isinstance(exc, Mismatch):
+                f = exc.failure
+            else:
+                # Hypothesis gave up (typically "flaky": a disagreement that depends on timing did not recur while
+                # shrinking).  Decide by deterministic replay of the disagreements that were really observed.
+                f = None
+                for cand in sorted(seen, key=lambda x: len(x.case["ops"]))[:6]:
+                    for _ in range(3):
+                        f = check_case(cand.case, base, tolerate, ignore)
+                        if f is not None:
+                            break
+                    if f is not None:
+                        break
+                if f is None:
+                    if not seen:
+                        common.machine_failure(exc, "C08 machine")      # raises HarnessError
+                    st.inconclusive += 1
+                    st.notes.append("a disagreement was observed once but did not recur in 3 replays (timing "
+                                    "dependent): %s %s" % (seen[0].kind, common._oneline(seen[0].detail, 200)))
+                    continue
             st.fail(f)
             ignore.add(f.bucket)
     finally:
@@ -1060,7 +1141,7 @@ def main(run):
         os.chdir(home)
     tolerate = _open_ids()
     nw = 10 if run.tier == "quick" else 16
-    nex = run.n(66, 3000)
+    nex = run.n(66, 1500)
     steps = run.n(40, 60)
     common.pool_map(run, __name__, "worker_machine",
                     [(common.worker_seed(run.seed, w), nex, steps, os.path.join(run.scratch, "w%d" % w, "m"), tolerate)
@@ -1080,6 +1161,16 @@ def main(run):
         "total_name_lookups": tot,
     }
     run.extra["tolerated_open_findings"] = tolerate
+    if not run.stats.failures:
+        floors = ["after:chmod+x", "after:chmod-x", "after:delete", "after:create", "after:symlink", "after:rmdir",
+                  "after:swapdir", "after:chdir", "after:path_remove", "after:path_insert", "after:restart",
+                  "shadow-skipped:nonexec", "shadow-skipped:dir", "shadow-skipped:dangling-or-loop", "hit:via-symlink",
+                  "cwd-has-exec-not-on-path", "path:empty-entry", "path:relative-entry", "path:symlinked-dir",
+                  "path:duplicate-dir", "path:missing-or-nondir-entry", "run:found", "run:notfound",
+                  "step-with-cache-disabled", "step-with-cache-file"]
+        low = [k for k in floors if h.get(k, 0) < 20]
+        if low:
+            raise HarnessError("generator incomplete: classes below the floor of 20 cases: %r" % low)
     run.assumptions += [
         "the process runs as uid %d; for root an x bit of any class grants execute permission (reference models this)" % os.geteuid(),
         "$XONSH_COMMANDS_CACHE_READ_DIR_ONCE is left at its default (empty): it is a documented opt-in to staleness",
